@@ -80,6 +80,7 @@ fn main() {
             "find" => findrun::handle(&rest),
             "glob" => globrun::handle(&rest),
             "rxwrap" => globrun::handle_rxwrap(&rest),
+            "rxrefs" => globrun::handle_rxrefs(&rest),
             "oracle" => oracle::handle(&rest),
             "paths" => pathrun::handle(&rest),
             _ => "badcase".to_string(),
